@@ -46,8 +46,12 @@ PROPS = {
                 gen=parse_family('C07', 1500, 40000, maxlen=9), flavours=['c'],
                 rule='grammars with 0..3 error rules, non-sentences <= 9 tokens, recovery_match 1..5, one/all parses, lookahead 0-2: return code, non-NULL tree, tree vs translations of the repaired input (read off the model parse list), ignored-token accounting, callbacks and final parse list vs the step-for-step recovery model',
                 assumptions=COMMON_ASSUME + ['the recovery search (Model/Recovery.lean) is an executable model validated by correspondence; termination/minimality theorems about it are not yet proved (see DESIGN.md)']),
+    'C08': dict(level='proof', theorem_modules=['C01'], min_theorems=8, tags=['C08'], crash_counts=True,
+                gen=parse_family('C08', 1500, 40000, maxlen=9), flavours=['c'],
+                rule='grammars with error rules, non-sentences <= 9 tokens, recovery_match 1..5, lookahead 0-2: the number of tokens the first callback reports ignored vs the minimum over all simple recoveries (back position with `. error` x forward skip) computed by brute force from the statement over the model sets',
+                assumptions=COMMON_ASSUME + ['recover_minimal (search invariant) is not proved; the inequality is validated per run against the oracle defined from the statement (simpleRecoveryCosts)']),
     'C09': dict(level='proof', theorem_modules=['C01'], min_theorems=8, tags=['C09'], crash_counts=True,
-                gen=parse_family('C09', 1200, 30000), flavours=['c'],
+                gen=lambda seed, tier: parse_family('C09', 1200, 30000)(seed, tier) + long_c09_cases(seed, tier), flavours=['c'],
                 rule='each input parsed at lookahead -3,0,1,2,7 and at several debug levels with otherwise identical flags: all observables (rc, callbacks, ambiguity flag, denoted tree set with costs) must be identical; goto-cache self-check hook on every parse',
                 assumptions=COMMON_ASSUME + ['verdict_indep_of_la01 / firstError_indep_of_la01 proved for levels 0/1; level 2 only through cross-level comparison']),
     'C05': dict(level='proof', theorem_modules=['C05'], min_theorems=4, tags=['C05'], crash_counts=True,
@@ -95,12 +99,264 @@ PROPS = {
                 gen=lambda seed, tier: gen.gen_history_cases(seed + 3, 12000 if tier == 'thorough' else 1200), flavours=['c'],
                 rule='the same histories: yaep_error_code / message after every call, return codes of yaep_parse for invalid token codes (below, between and above the declared codes), undefined grammars, NULL allocator with non-NULL free; previous values returned by all setters incl. out-of-range lookahead levels',
                 assumptions=COMMON_ASSUME),
+    'C17': dict(level='fault_enumeration', theorem_modules=['C14'], min_theorems=4, tags=['C17', 'C12', 'C15', 'C14'], crash_counts=True, runner=None,
+                flavours=['c', 'cxx'],
+                rule='scenarios (callback-defined and description-defined grammars, parse with and without error recovery, all parses with cost pruning, dynamic lookahead, a second live object): the fault-free run counts the library allocations of yaep_create_grammar / the definition / yaep_parse; then for every k (thorough: all k; quick: a strided sample incl. the first and last 10) the k-th allocation of that call fails: expected NULL resp. YAEP_NO_MEMORY with error code 1, no sanitizer report, yaep_free_grammar succeeds, the other object still parses as the model says; non-trivial = a variant in which the injected failure actually fired',
+                assumptions=['malloc/calloc/realloc/free of allocate.c are replaced by counting, failing wrappers (no source hook); operator new of the C++ containers is not injected',
+                             'which blocks the longjmp unwinding leaks is not judged (leaks are reported as statistics only); partial: memory effects are runtime truth (ASan)',
+                             'Lean: Model/Api.lean + apiStep_local (other objects unaffected); the judge applies it to histories with injected failures'],
+                technique='exhaustive single-fault enumeration over allocation indices, judged by the Lean API model'),
+    'C18': dict(level='exploration', theorem_modules=['C01'], min_theorems=4, tags=['C18'], crash_counts=True, runner=None, flavours=['c'],
+                rule='left-recursive list, E/T/F arithmetic and the 200-rule ANSI C grammar of test41.c on the tokens of test/test.i (the repo lexer ansic.l), input lengths 1k..16k/32k (thorough: ..512k) doubling, lookahead 0,1,2: bytes requested from the allocator during yaep_parse, hash searches, unique situations / set cores / distance vectors / sets / triples must grow by at most a calibrated factor per doubling (bytes 2.6, searches 3.5, ...), never more unique sets than tokens, goto-cache hits do not shrink; non-trivial = a (family, lookahead, n -> 2n) pair with both measurements',
+                assumptions=['measured, not proved: hash distribution, allocator behaviour and wall time are outside any model; thresholds calibrated on the unchanged tree with head-room',
+                             'hash collisions grow superlinearly on the unchanged tree (recorded finding); only an explosion beyond 30x per doubling alarms'],
+                technique='machine-independent work counters (guarded hook + allocator wrapper) at doubling input sizes (partial: runtime behaviour)'),
     'C19': dict(level='proof', theorem_modules=['C19'], min_theorems=12, tags=['C19'], crash_counts=False, kind='containers',
                 gen=lambda seed, tier: gen_containers.gen_cases(seed, 12000 if tier == 'thorough' else 1500), flavours=['c', 'cxx'],
                 rule='random op sequences (<= 400 ops) on hash table (small moduli force collisions, sizes force several expansions, remove/re-insert reuse deleted slots, empty), object stack (sizes around segment boundaries, objects larger than a segment), VLO (growth boundaries); C and C++ builds; every query result vs the Lean model, table size/element count as deep tie',
                 assumptions=COMMON_ASSUME[1:] + ['hash function and equality of the harness are `v % modulus` and identity; memcpy/realloc behave as specified',
                                                  'the models (HashTab/ObjStack/Vlo.lean) are hand-written; the refinement theorems are about them; tie = sampled op sequences']),
 }
+
+
+def fault_scenarios(seed, tier):
+    """scenarios for C17: (case lines without the trailing frees); object 1 is the bystander"""
+    r = random.Random(seed)
+    scen = []
+    fixed = gen.Grammar([('a', 97), ('plus', 43)],
+                        [('E', 'add', 1, ['E', 'plus', 'T'], [0, 2]), ('E', None, 0, ['T'], [0]), ('T', None, 0, ['a'], [0]),
+                         ('E', 'err', 0, ['error'], [])], True)
+    amb = gen.Grammar([('a', 97)], [('S', 'p', 2, ['S', 'S'], [0, 1]), ('S', 'q', 1, ['a'], [0])], True)
+    texts = [b"TERM NUM = 300 ID;\nS : S '+' T # add (0 2) | T # 0 ;\nT : NUM # 0 | ID # 0 | '(' S ')' # 1 | error # e 2 ;",
+             b"E : E E # p (0 1) | 'a' # 0 ;"]
+    plans = [
+        (fixed, None, [97, 43, 97], dict(rec=1)),
+        (fixed, None, [97, 43, 43, 97, 97], dict(rec=1, match=2)),          # with error recovery
+        (amb, None, [97, 97, 97, 97], dict(one=0, cost=1, rec=0)),          # all parses + cost pruning
+        (amb, None, [97, 97, 97], dict(la=2, one=0, rec=0)),
+        (None, texts[0], [300, 43, 256], dict(rec=1)),
+        (None, texts[1], [97, 97, 97], dict(one=0, rec=0)),
+    ]
+    nrand = 10 if tier == 'thorough' else 2
+    for _ in range(nrand):
+        g = gen.gen_grammar(r, err_prob=0.4)
+        ins = gen.gen_inputs(r, g, 1, 7)[0]
+        plans.append((g, None, [g.code(t) for t in ins], dict(rec=r.choice([0, 1]), one=r.choice([0, 1]), cost=r.choice([0, 1]), la=r.choice([0, 1, 2]))))
+    for idx, (g, text, toks, cfg) in enumerate(plans):
+        lines = ['case F%d-%d fault' % (seed, idx)]
+        if g is not None: lines += g.text(0)
+        else:
+            lines += fixed.text(0)
+            lines.append('text 0 %s' % text.hex())
+        ops = ['create 1', 'def 1 0', 'create 0']
+        ops.append('def 0 0' if g is not None else 'descr 0 0 1')
+        for k, v in cfg.items(): ops.append('set 0 %s %d' % (k, v))
+        ops.append('parse 0 user user 0 %s' % ' '.join(map(str, toks)))
+        scen.append((lines, ops))
+    return scen
+
+
+def run_c17(pid, P, tier, seed):
+    """fail the k-th internal allocation of create / define / parse for every k (exhaustive in k
+    in the thorough tier, strided sample in the quick tier)"""
+    scen = fault_scenarios(seed, tier)
+    failures = []; cov = dict(evaluations=0, distinct_nontrivial=0, rule=P['rule'], samples=[], verdicts={}, scenarios=[])
+    vcount = Counter()
+    for flavour in P.get('flavours', ['c']):
+        # 1. fault-free runs: allocations per op
+        base = []
+        for lines, ops in scen:
+            c = list(lines) + ['op %d %s' % (i + 1, o) for i, o in enumerate(ops)] + ['op %d free 0' % (len(ops) + 1), 'op %d free 1' % (len(ops) + 2), 'end']
+            base.append(c)
+        res = pipeline.run_cases(base, flavour)
+        variants = []
+        for (lines, ops), c in zip(scen, base):
+            cid = c[0].split()[1]
+            obs = res.obs.get(cid, [])
+            allocs = {}
+            for l in obs:
+                w = l.split()
+                if len(w) > 3 and w[0] == 'o' and w[2] == 'lib':
+                    kvs = dict(x.split('=') for x in w[3:] if '=' in x)
+                    allocs[int(w[1])] = int(kvs.get('allocs', 0))
+            prev = 0; per = {}
+            for i in range(1, len(ops) + 1):
+                a = allocs.get(i, prev); per[i] = a - prev; prev = a
+            info = dict(case=cid, flavour=flavour, ops={})
+            tl = [l for l in lines if l.startswith('term ')]
+            bystander_tok = tl[0].split()[2] if tl else '97'
+            for i, o in enumerate(ops, 1):
+                kind = o.split()[0]
+                if kind not in ('create', 'def', 'descr', 'parse') or o.split()[1] != '0': continue
+                if kind == 'create' and flavour == 'cxx': continue      # a C++ constructor cannot return NULL
+                n = per[i]
+                ks = list(range(1, n + 1))
+                if tier != 'thorough' and n > 60:
+                    stride = max(1, n // 60)
+                    ks = sorted(set(ks[::stride] + ks[:10] + ks[-10:]))
+                info['ops'][o.split()[0]] = dict(allocations=n, injected=len(ks))
+                for k in ks:
+                    v = list(lines)
+                    v[0] = 'case %s-%s%d-k%d fault' % (cid, kind, i, k)
+                    vo = ops[:i - 1] + ['failat 0 %d' % k, ops[i - 1]]
+                    if kind != 'create' or True:
+                        vo += ['err 0'] if kind != 'create' else []
+                    vo += ['free 0', 'set 1 rec 0', 'parse 1 user user 0 %s' % bystander_tok, 'err 1', 'free 1']
+                    v += ['op %d %s' % (j + 1, x) for j, x in enumerate(vo)] + ['end']
+                    variants.append(v)
+            cov['scenarios'].append(info)
+        res2 = pipeline.run_cases(variants, flavour)
+        cov['evaluations'] += len(variants)
+        if not cov['samples'] and variants: cov['samples'] = [variants[len(variants) // 2]]
+        fired_cases = set()
+        for v in res2.verdicts:
+            if v.prop == 'C14' and not v.ok:
+                vcount['%s leaked-after-failure cases (not judged)' % flavour] += 1
+                continue
+            if v.prop == 'C17' or v.prop == 'C12' or (v.prop in ('C15', 'C14', 'C10', 'C01') and v.kind == 'K'):
+                vcount['%s %s %s %s' % (flavour, v.prop, v.kind, 'ok' if v.ok else 'bad')] += 1
+                if v.prop == 'C17' and 'under allocation failure' in v.detail: fired_cases.add(v.case)
+                if not v.ok:
+                    failures.append(dict(prop=v.prop, kind='K', case=v.case, op=v.op, detail='[%s] %s' % (flavour, v.detail),
+                                         context=res2.stats.get(v.case, []), replay_lines=res2.obs.get(v.case, [])))
+        cov['distinct_nontrivial'] += len(fired_cases)
+        vcount['%s injected failures that fired' % flavour] = len(fired_cases)
+    cov['verdicts'] = dict(vcount)
+    cov['flavours'] = P.get('flavours', ['c'])
+    return dict(coverage=cov, failures=failures, search_note='')
+
+
+PERF_DESCR = {
+    'llist': "L : L ',' 'x' # l (0 2) | 'x' # 0 ;",
+    'etf': "E : E '+' T # p (0 2) | T # 0 ; T : T '*' F # m (0 2) | F # 0 ; F : 'a' # 0 | '(' E ')' # 1 ;",
+}
+
+
+def perf_tokens(fam, n):
+    if fam == 'llist': return '120 rep %d 2 44 120' % (n // 2)
+    return 'rep %d 8 97 43 97 42 40 97 41 43 97' % (n // 8)
+
+
+def perf_cases(tier, las=(0, 1, 2), hook=8, with_rec=False):
+    import ansic
+    sizes = [1000, 2000, 4000, 8000, 16000] + ([32000, 64000, 128000, 256000, 512000] if tier == 'thorough' else [])
+    cases = []
+    for fam, d in PERF_DESCR.items():
+        for n in sizes:
+            for la in las:
+                cases.append(['case P-%s-%d-%d perf' % (fam, n, la), 'notree', 'quietev', 'text 0 %s' % d.encode().hex(),
+                              'op 1 create 0', 'op 2 descr 0 0 1', 'op 3 set 0 rec 0', 'op 4 set 0 la %d' % la,
+                              'op 5 parse 0 user user %d %s' % (hook, perf_tokens(fam, n)), 'op 6 free 0', 'end'])
+    d = ansic.description(); t = ansic.tokens()
+    asizes = [1000, 2000, 4000, 8000, 16000, 32000] + ([64000, 128000, 256000, 512000] if tier == 'thorough' else [])
+    for n in asizes:
+        toks = (t * (n // len(t) + 1))[:n] if n > len(t) else t[:n]
+        for la in las:
+            cases.append(['case P-ansic-%d-%d perf' % (n, la), 'notree', 'quietev', 'text 0 %s' % d.encode().hex(),
+                          'op 1 create 0', 'op 2 descr 0 0 1', 'op 3 set 0 rec 0', 'op 4 set 0 la %d' % la,
+                          'op 5 parse 0 user user %d %s' % (hook, ' '.join(map(str, toks))), 'op 6 free 0', 'end'])
+    return cases
+
+
+def perf_rows(res):
+    rows = {}
+    for cid, obs in res.obs.items():
+        m = {}; prevbytes = 0
+        for l in obs:
+            w = l.split()
+            if l.startswith('o 4 lib'): prevbytes = int(dict(x.split('=') for x in w[3:]).get('bytes', 0))
+            elif l.startswith('o 5 cnt'): m.update({k: int(v) for k, v in (x.split('=') for x in w[3:])})
+            elif l.startswith('o 5 lib'): m['bytes'] = int(dict(x.split('=') for x in w[3:]).get('bytes', 0)) - prevbytes
+            elif l.startswith('o 5 parse'): m['rc'] = w[3]
+            elif l.startswith('o crash'): m['crash'] = l
+        rows[cid] = m
+    return rows
+
+
+# calibrated on the unchanged tree (max observed: bytes 2.15, searches 2.93, sits 1.4, cores 2.1, sets 2.0)
+PERF_LIMITS = dict(bytes=2.6, searches=3.5, sits=1.7, cores=2.6, sets=2.2, dists=2.2, triples=2.2)
+
+
+def run_c18(pid, P, tier, seed):
+    cases = perf_cases(tier)
+    failures = []; vcount = Counter()
+    cov = dict(evaluations=0, distinct_nontrivial=0, rule=P['rule'], samples=[], verdicts={}, measurements={})
+    for flavour in P.get('flavours', ['c']):
+        res = pipeline.run_cases(cases, flavour, timeout=600)
+        rows = perf_rows(res)
+        cov['evaluations'] += len(cases)
+        groups = {}
+        for cid, m in rows.items():
+            _, fam, n, la = cid.split('-')
+            groups.setdefault((fam, int(la)), {})[int(n)] = m
+            if 'crash' in m or m.get('rc') != 'rc=0' or 'toks' not in m:
+                failures.append(dict(prop=pid, kind='K', case=cid, op='5', detail='[%s] parse failed: %s' % (flavour, m), context=[], replay_lines=res.obs.get(cid, [])[:12]))
+        for (fam, la), byn in sorted(groups.items()):
+            ns = sorted(byn)
+            cov['measurements']['%s/%s/la%d' % (flavour, fam, la)] = {str(n): {k: byn[n].get(k) for k in ('bytes', 'searches', 'collisions', 'sits', 'cores', 'sets', 'gotos')} for n in ns}
+            for a, b in zip(ns, ns[1:]):
+                if b != 2 * a or 'toks' not in byn[a] or 'toks' not in byn[b]: continue
+                cov['distinct_nontrivial'] += 1
+                for metric, lim in PERF_LIMITS.items():
+                    x, y = byn[a].get(metric, 0), byn[b].get(metric, 0)
+                    ok = y <= lim * x + 64
+                    vcount['%s %s' % (metric, 'ok' if ok else 'bad')] += 1
+                    if not ok:
+                        failures.append(dict(prop=pid, kind='K', case='P-%s-%d-%d' % (fam, b, la), op='5',
+                                             detail='[%s] %s grows by %.2f when the input doubles (%d -> %d tokens: %d -> %d), limit %.1f' % (flavour, metric, y / max(1, x), a, b, x, y, lim),
+                                             context=[], replay_lines=res.obs.get('P-%s-%d-%d' % (fam, b, la), [])[:12]))
+                # hash collisions: superlinear on the unchanged tree (recorded finding); alarm beyond 30x
+                x, y = byn[a].get('collisions', 0), byn[b].get('collisions', 0)
+                if y > 3 * x + 200:
+                    tag = 'KF-collisions-superlinear' if y <= 30 * x + 2000 else 'collisions-explode'
+                    vcount[tag] += 1
+                    failures.append(dict(prop=pid, kind='K', case='P-%s-%d-%d' % (fam, b, la), op='5',
+                                         detail='%s [%s] hash collisions grow by %.1f when the input doubles (%d -> %d tokens: %d -> %d)' % (tag, flavour, y / max(1, x), a, b, x, y),
+                                         context=[], replay_lines=res.obs.get('P-%s-%d-%d' % (fam, b, la), [])[:12]))
+                # identical sets are found again rather than rebuilt: never more sets than tokens, cache hits do not shrink
+                if byn[b].get('sets', 0) > byn[b].get('toks', 0) + 2:
+                    failures.append(dict(prop=pid, kind='K', case='P-%s-%d-%d' % (fam, b, la), op='5', detail='[%s] more unique sets than tokens: %s' % (flavour, byn[b]), context=[], replay_lines=[]))
+                if fam == 'ansic' and byn[b].get('gotos', 0) < byn[a].get('gotos', 0):
+                    failures.append(dict(prop=pid, kind='K', case='P-%s-%d-%d' % (fam, b, la), op='5', detail='[%s] goto cache hits shrink with longer input: %s -> %s' % (flavour, byn[a].get('gotos'), byn[b].get('gotos')), context=[], replay_lines=[]))
+        if not cov['samples']: cov['samples'] = [[l[:200] for l in cases[0]]]
+    cov['verdicts'] = dict(vcount)
+    cov['flavours'] = P.get('flavours', ['c'])
+    return dict(coverage=cov, failures=failures, search_note='')
+
+
+def long_c09_cases(seed, tier):
+    """long inputs with many repeated fragments (ANSI C on real C code, E/T/F), with and without
+    syntax errors, each parsed at all lookahead levels and two debug levels on one object"""
+    import ansic
+    r = random.Random(seed)
+    d = ansic.description(); t = ansic.tokens()
+    cases = []
+    sizes = [1500, 6000] + ([30000, 75000] if tier == 'thorough' else [])
+    for n in sizes:
+        for variant in ('clean', 'errors'):
+            start = r.randrange(0, max(1, len(t) - n)) if n < len(t) else 0
+            toks = list(t[:n])
+            if variant == 'errors':
+                for _ in range(3):
+                    k = r.randrange(len(toks)); toks[k] = r.choice([59, 1000, 125, 40])
+            c = ['case L-ansic-%d-%s long' % (n, variant), 'notree', 'quietev', 'text 0 %s' % d.encode().hex(), 'op 1 create 0', 'op 2 descr 0 0 1']
+            k = 2
+            for rec in ((0, 1) if variant == 'errors' and n <= 6000 else (0,)):
+                for la, dbg in ((0, 0), (1, 0), (2, 0), (1, 1)):
+                    for what, v in (('rec', rec), ('la', la), ('debug', dbg)):
+                        k += 1; c.append('op %d set 0 %s %d' % (k, what, v))
+                    k += 1; c.append('op %d parse 0 user user 12 %s' % (k, ' '.join(map(str, toks))))
+            c += ['op %d free 0' % (k + 1), 'end']
+            cases.append(c)
+    for n in ([4000, 16000] + ([128000] if tier == 'thorough' else [])):
+        c = ['case L-etf-%d long' % n, 'notree', 'quietev', 'text 0 %s' % PERF_DESCR['etf'].encode().hex(), 'op 1 create 0', 'op 2 descr 0 0 1', 'op 3 set 0 rec 0']
+        k = 3
+        for la in (0, 1, 2, 7):
+            k += 1; c.append('op %d set 0 la %d' % (k, la))
+            k += 1; c.append('op %d parse 0 user user 12 %s' % (k, perf_tokens('etf', n)))
+        c += ['op %d free 0' % (k + 1), 'end']
+        cases.append(c)
+    return cases
 
 
 def corpus_cases(pid, sub=''):
@@ -129,6 +385,8 @@ def case_features(stats):
 
 
 def run_property(pid, P, cases, tier, seed, replay=False):
+    if P.get('runner') and cases is None:
+        return P['runner'](pid, P, tier, seed)
     tags = set(P['tags'])
     if cases is None:
         cases = corpus_cases(pid, 'containers' if P.get('kind') == 'containers' else '') + P['gen'](seed, tier)
@@ -173,7 +431,8 @@ def run_property(pid, P, cases, tier, seed, replay=False):
             lb = ob.get(cid)
             if lb is None: continue
             ncmp += 1
-            fa_l = [l for l in la if flt(l)]; fb_l = [l for l in lb if flt(l)]
+            strip = lambda l: ' '.join(w for w in l.split(' ') if not w.startswith(('searches=', 'collisions=')))
+            fa_l = [strip(l) for l in la if flt(l)]; fb_l = [strip(l) for l in lb if flt(l)]
             if fa_l != fb_l:
                 ndiff += 1
                 k = next((i for i in range(min(len(fa_l), len(fb_l))) if fa_l[i] != fb_l[i]), min(len(fa_l), len(fb_l)))
@@ -200,3 +459,6 @@ def run_property(pid, P, cases, tier, seed, replay=False):
             failures.append(dict(prop=v.prop, kind=v.kind, case=v.case, op=v.op, detail=v.detail, context=res.stats.get(v.case, []),
                                  replay_lines=res.obs.get(v.case, [])))
     return dict(coverage=cov, failures=failures, search_note=note)
+
+PROPS['C17']['runner'] = run_c17
+PROPS['C18']['runner'] = run_c18
